@@ -445,6 +445,7 @@ Section PipelineProofs.
   Variable execute : bool -> Schema -> exec_request Features Doc -> Z -> Resp.
   Variable run_subscription : bool -> Schema -> exec_request Features Doc -> Z -> list Resp.
   Variable pq_ext : (request -> Resp * list (event Features Ctx Doc)) -> request -> Resp * list (event Features Ctx Doc).
+  Variable marshal : Resp -> option bytes.
   Variable build : SchemaDef -> Schema.
   Variable clone : SchemaDef -> SchemaDef.
   Variable render : json -> bytes.
@@ -458,9 +459,9 @@ Section PipelineProofs.
   Hypothesis pq_no_ext : forall ex r, r_ext r = None -> pq_ext ex r = ex r.
   Hypothesis pq_ext_ext : forall ex1 ex2, (forall r, ex1 r = ex2 r) -> forall r, pq_ext ex1 r = pq_ext ex2 r.
 
-  Let serve := serve_graphql no_features parse_validate execute pq_ext fixed parse_std.
-  Let servews := serve_ws (Ctx := Ctx) parse_validate is_subscription execute run_subscription parse_jsi.
-  Let resp := respond no_features parse_validate is_subscription execute run_subscription pq_ext fixed parse_std parse_jsi render.
+  Let serve := serve_graphql no_features parse_validate execute pq_ext marshal fixed parse_std.
+  Let servews := serve_ws (Ctx := Ctx) parse_validate is_subscription execute run_subscription marshal parse_jsi.
+  Let resp := respond no_features parse_validate is_subscription execute run_subscription pq_ext marshal fixed parse_std parse_jsi render.
 
   Definition request_of (o : op) : request :=
     {| r_query := o_query o; r_vars := o_vars o; r_opname := o_opname o; r_ext := None |}.
@@ -477,7 +478,7 @@ Section PipelineProofs.
     is_http t = true -> wf_op o = true -> carries t o = true -> (forall j, In j (sent_json t o) -> clean j) ->
     resp t a c id o =
     (let (r, tr) := validate_execute parse_validate execute a (features_of no_features a c) (request_of o) in
-     (Some [r], features_events a c ++ tr)).
+     (match marshal r with Some body => Some [body] | None => None end, features_events a c ++ tr)).
   Proof.
     intros Ht W Cr Cl.
     pose proof (envelope_roundtrip render parse_std parse_jsi clean std_faithful jsi_faithful render_nonempty t id o W Cr Cl) as RT.
@@ -488,7 +489,8 @@ Section PipelineProofs.
     assert (R : r = request_of o) by (destruct r; subst o; cbn in *; subst; reflexivity).
     subst r. rewrite (pq_no_ext _ _ (eq_refl : r_ext (request_of o) = None)).
     destruct (a_pq a);
-      destruct (validate_execute parse_validate execute a (features_of no_features a c) (request_of o)) as [rs tr]; reflexivity.
+      destruct (validate_execute parse_validate execute a (features_of no_features a c) (request_of o)) as [rs tr];
+      destruct (marshal rs); reflexivity.
   Qed.
 
   Lemma handle_message_id p di f id q v n :
@@ -503,7 +505,7 @@ Section PipelineProofs.
   Lemma respond_ws t a c id o :
     is_http t = false -> wf_op o = true -> (forall j, In j (sent_json t o) -> clean j) ->
     resp t a c id o =
-    (let (out, tr) := handle_start parse_validate is_subscription execute run_subscription a (features_of no_features a c) false
+    (let (out, tr) := handle_start parse_validate is_subscription execute run_subscription marshal a (features_of no_features a c) false
                                    id (o_query o) (o_vars o) (o_opname o) in
      (Some (data_of out), features_events a c ++ tr)).
   Proof.
@@ -517,7 +519,7 @@ Section PipelineProofs.
     apply handle_message_id in D as Hid. rewrite Fid in Hid. subst id'.
     injection RT as Ho. subst o. cbn [o_query o_vars o_opname].
     fold (features_events a c).
-    destruct (handle_start parse_validate is_subscription execute run_subscription a (features_of no_features a c) false id q v n) as [out tr].
+    destruct (handle_start parse_validate is_subscription execute run_subscription marshal a (features_of no_features a c) false id q v n) as [out tr].
     reflexivity.
   Qed.
 
@@ -525,8 +527,8 @@ Section PipelineProofs.
   Lemma handle_start_validate_execute (a : api Schema Features Ctx) f id o :
     (forall d cost, parse_validate (a_schema a) f (a_default_cost a) (o_query o) (o_opname o) (o_vars o) = PVOk d cost ->
                     is_subscription d (o_opname o) = false) ->
-    handle_start parse_validate is_subscription execute run_subscription a f false id (o_query o) (o_vars o) (o_opname o) =
-    (let (r, tr) := validate_execute parse_validate execute a f (request_of o) in ([WsData id r; WsComplete id], tr)).
+    handle_start parse_validate is_subscription execute run_subscription marshal a f false id (o_query o) (o_vars o) (o_opname o) =
+    (let (r, tr) := validate_execute parse_validate execute a f (request_of o) in (send_data marshal id r ++ [WsComplete id], tr)).
   Proof.
     intro NS. unfold handle_start, validate_execute. cbn [request_of r_query r_vars r_opname r_ext].
     destruct (parse_validate (a_schema a) f (a_default_cost a) (o_query o) (o_opname o) (o_vars o)) as [r|d cost] eqn:E; [reflexivity|].
@@ -539,21 +541,21 @@ Section PipelineProofs.
     (forall j, In j (sent_json t1 o) \/ In j (sent_json t2 o) -> clean j) ->
     (forall d cost, parse_validate (a_schema a) (features_of no_features a c) (a_default_cost a) (o_query o) (o_opname o) (o_vars o) = PVOk d cost ->
                     is_subscription d (o_opname o) = false) ->
-    resp t1 a c id1 o = resp t2 a c id2 o /\ exists rs, fst (resp t1 a c id1 o) = Some rs.
+    (forall r tr, validate_execute parse_validate execute a (features_of no_features a c) (request_of o) = (r, tr) -> marshal r <> None) ->
+    resp t1 a c id1 o = resp t2 a c id2 o /\ exists body, fst (resp t1 a c id1 o) = Some [body].
   Proof.
-    intros W C1 C2 Cl NS.
+    intros W C1 C2 Cl NS MO.
+    destruct (validate_execute parse_validate execute a (features_of no_features a c) (request_of o)) as [r tr] eqn:VE.
+    destruct (marshal r) as [body|] eqn:Mr; [|exfalso; exact (MO r tr eq_refl Mr)].
     assert (G : forall t id, carries t o = true -> (forall j, In j (sent_json t o) -> clean j) ->
-                resp t a c id o =
-                (let (r, tr) := validate_execute parse_validate execute a (features_of no_features a c) (request_of o) in
-                 (Some [r], features_events a c ++ tr))).
+                resp t a c id o = (Some [body], features_events a c ++ tr)).
     { intros t id Cr Cl'. destruct (is_http t) eqn:H.
-      - apply respond_http; assumption.
+      - rewrite respond_http by assumption. rewrite VE, Mr. reflexivity.
       - rewrite respond_ws by assumption. rewrite handle_start_validate_execute by exact NS.
-        destruct (validate_execute parse_validate execute a (features_of no_features a c) (request_of o)) as [r tr]. reflexivity. }
+        rewrite VE. unfold send_data. rewrite Mr. reflexivity. }
     rewrite (G t1 id1 C1) by (intros j Hj; apply Cl; left; exact Hj).
     rewrite (G t2 id2 C2) by (intros j Hj; apply Cl; right; exact Hj).
-    split; [reflexivity|].
-    destruct (validate_execute parse_validate execute a (features_of no_features a c) (request_of o)) as [r tr]. eexists; reflexivity.
+    split; [reflexivity|]. exists body. reflexivity.
   Qed.
 
   (** the two socket protocols agree on every operation, subscriptions included (same ids) *)
